@@ -138,15 +138,24 @@ def reencrypt_cases(ctx, rng):
                                       {**case, "second_token": again.value})
                     elif back.value.plaintext != pt:
                         ctx.violation("reencrypted-plaintext-differs", f"re-encrypted token yields another plaintext for {desc}", {**case, "second_token": again.value})
-                    elif params_in == "recipient":
-                        # (with the generated parameters also in the protected header the token carries duplicates, which the reference refuses)
+                    elif params_in == "recipient" or ctx.prop == "C08":
                         from refjose import jwe as rjwe
                         from refjose.keys import RefKey
-                        r = rjwe.decrypt(again.value, RefKey.from_jwk(rk), RefKey.from_jwk(gen.public_jwk(sk)) if sk else None)
+                        from refjose.prim import b64u_dec
+                        r = rjwe.decrypt(again.value, RefKey.from_jwk(rk), RefKey.from_jwk(gen.public_jwk(sk)) if sk else None, disjoint=True)
                         ctx.count("reencryptions_checked_by_reference")
                         if r.verdict != "ACCEPT" or r.payload != pt:
-                            ctx.violation(f"reencrypted-token-rejected-by-reference:{r.klass}", f"the re-encrypted token for {desc} is not valid under the reference: {r.reason}",
-                                          {**case, "second_token": again.value})
+                            # what joserfc put on the wire: the same name in the protected header and in a per-recipient header (RFC 7516, 7.2.1: disjoint)?
+                            prot2 = json.loads(b64u_dec(again.value["protected"])) if again.value.get("protected") else {}
+                            rhs = [again.value.get("header") or {}] if "recipients" not in again.value else [x.get("header") or {} for x in again.value["recipients"]]
+                            dup = sorted({n for h in rhs for n in h if n in prot2})
+                            if dup and params_in == "protected":
+                                ctx.violation("reencrypted-token-rejected-by-reference:stale-generated-parameter-left-in-protected-header",
+                                              f"encrypting again an object parsed from a JWE whose {dup} stood in the protected header ({desc}): the new token keeps the old "
+                                              f"{dup} in the protected header and carries the new one in the per-recipient header; reference: {r.reason}", {**case, "second_token": again.value})
+                            else:
+                                ctx.violation(f"reencrypted-token-rejected-by-reference:{r.klass}", f"the re-encrypted token for {desc} is not valid under the reference: {r.reason}",
+                                              {**case, "second_token": again.value})
 
 
 def scale_cases(ctx, rng):
@@ -295,6 +304,42 @@ def same_object_twice(ctx, rng):
                                   f"{d.exc!r}", case)
 
 
+def shared_recipient_header(ctx, rng):
+    """several recipients of one algorithm, added with one and the same header dict (h = {"alg": ...}; for k in keys: obj.add_recipient(h, k)): each
+    recipient still gets the parameters of its own key agreement / key wrapping, so each private key decrypts"""
+    j = J.load()
+    J.register_drafts()
+    pt = b"c04 one header object for all recipients"
+    for ai, alg in enumerate(["ECDH-ES+A128KW", "ECDH-ES+A256KW", "A128GCMKW", "A256GCMKW", "A256KW", "RSA-OAEP", "PBES2-HS256+A128KW", "ECDH-1PU+A128KW", "ECDH-1PU+A256KW"]):
+        for n in (2, 3, 4):
+            ctx.ev()
+            enc = ["A128CBC-HS256", "A256CBC-HS512", "A192CBC-HS384"][(ai + n) % 3]
+            curve = g.ECDH_CURVES[(ai + n) % len(g.ECDH_CURVES)]
+            pairs = [g.keys_for(alg, enc, curve) for _ in range(n)]
+            sk = pairs[0][1]
+            allow = [alg, enc]
+            obj = j.jwe.GeneralJSONEncryption({"enc": enc}, pt)
+            h = {"alg": alg}
+            for rk, _ in pairs:
+                obj.add_recipient(h, j.key(gen.public_jwk(rk)))
+            o = call(j.jwe.encrypt_json, obj, None, algorithms=allow, sender_key=j.key(sk) if sk else None)
+            ctx.count("shared_recipient_header_tokens")
+            ctx.cell("shared-header", alg, n)
+            ctx.nontrivial(("shared-header", alg, n))
+            case = {"alg": alg, "enc": enc, "recipients": n, "curve": curve}
+            if not o.ok:
+                ctx.violation(f"encrypt-fails-with-shared-recipient-header:{o.key}", f"{n} {alg} recipients added with one header dict: {o.exc!r}", case)
+                continue
+            reg = j.jwe.JWERegistry(algorithms=allow, verify_all_recipients=False)
+            who = []
+            for i, (rk, _) in enumerate(pairs):
+                d = call(j.jwe.decrypt_json, copy.deepcopy(o.value), j.key(rk), registry=reg, sender_key=j.key(gen.public_jwk(sk)) if sk else None)
+                who.append(bool(d.ok and d.value.plaintext == pt))
+            if not all(who):
+                ctx.violation("recipient-cannot-decrypt:recipients-added-with-one-header-dict", f"{n} {alg} recipients added with one and the same header dict: "
+                              f"recipients able to decrypt {who}; per-recipient headers emitted {[r.get('header') for r in o.value['recipients']]!r}"[:600], {**case, "token": o.value})
+
+
 def forbidden_cells(ctx, rng):
     """combinations the specifications forbid must be refused at encryption time"""
     j = J.load()
@@ -393,6 +438,8 @@ def run_shard(ctx):
         scale_cases(ctx, rng)
     if ctx.shard == 4:
         import_order_cases(ctx)
+    if ctx.shard == 5:
+        shared_recipient_header(ctx, rng)
     fc = forced(ctx.tier)
     for idx, kw in enumerate(fc):
         if idx % ctx.nshards != ctx.shard:
